@@ -206,7 +206,7 @@ def run_shard(shard, ctx):
             ex = lambda t, v: [t, v]  # noqa: E731
         else:
             vals = [1, 999, 1000, 1118, 20548, 120000, 99999999, 10**9]
-        for tk in ((5, 6), (5, 15), (10, 11), (5, 15, 25), (12, 13, 14), (9, 10, 20)):
+        for tk in ((5, 6), (5, 15), (10, 11), (5, 15, 25), (12, 13, 14), (9, 10, 20)) + (((5, 5), (10, 10, 10), (6, 5)) if shard[1] != "B" else ()):
             for vs in itertools.product(vals, repeat=len(tk)):
                 if ctx.out_of_time():
                     return
